@@ -721,7 +721,10 @@ def run_config(c, m=None):
     tsel = c["tp"] if c["tp"] is not None else list(range(len(pn)))
     ssel = c["ts"] if c["ts"] is not None else list(range(nS))
     m.parameters = dict(zip(pn, theta_true))
-    kw = dict(theta=np.array(c["theta0"]), ode=m, x0=[int(v) for v in x0] if c["x0_int"] else list(x0), t0=t0,
+    # half of the float configurations hand x0 over as a float ndarray that the caller keeps (and shares with a second loss object)
+    x0_buf = np.array(x0, dtype=float) if (not c["x0_int"] and n % 2 == 0) else None
+    kw = dict(theta=np.array(c["theta0"]), ode=m,
+              x0=x0_buf if x0_buf is not None else ([int(v) for v in x0] if c["x0_int"] else list(x0)), t0=t0,
               t=(np.array([int(v) for v in grid], dtype=int) if c.get("grid_int") else np.array(grid)),
               y=(y[:, 0].copy() if p == 1 else y.copy()),
               state_name=None if c["names_none"] else ([spec["states"][j] for j in cols] if p > 1 else spec["states"][cols[0]]),
@@ -792,7 +795,21 @@ def run_config(c, m=None):
         for i, v in zip(ssel, th_iv[len(tsel):]):
             x0_eff[i] = float(v)
         tag = "costIV-int-x0" if (c["x0_int"] and c["ts"] is not None) else "costIV"
+        L2 = None
+        if x0_buf is not None:
+            try:
+                L2 = ctor(**dict(kw, theta=np.array(c["theta1"])))
+            except BaseException:          # noqa: B902
+                L2 = None
         judge(tag, lambda: L.costIV(np.array(th_iv), apply_weighting=aw), full_theta(th_iv[:len(tsel)]), x0_eff, "cost")
+        if x0_buf is not None:
+            # the initial values a loss object was constructed with are its own: another object's costIV (which tries other
+            # initial values) must change neither the caller's array nor what a sibling object integrates from
+            if not np.array_equal(x0_buf, np.array(x0, dtype=float)):
+                viol.append(("caller-x0-modified", "costIV on a %sLoss object changed the x0 array the caller constructed it with: %s -> %s"
+                             % (cls, list(x0), x0_buf.tolist())))
+            elif L2 is not None:
+                judge("sibling-cost-after-costIV", lambda: L2.cost(np.array(c["theta1"]), apply_weighting=aw), full_theta(c["theta1"]), x0, "cost")
     return viol, stats
 
 
